@@ -105,8 +105,8 @@ def show(e, depth=0):
         if e.get("n"):
             return e["n"]
         m = e.get("m")
-        if m and m not in ("ASSERT",) and not e.get("so"):
-            return m if e.get("mi") in (None, m) or True else str(e["v"])
+        if m and m.isupper() and m not in ("ASSERT",) and not e.get("so") and e.get("mi") in (None, m):
+            return m
         return str(e.get("v"))
     if k == "Str":
         return '"%s"' % (e.get("v") or "")[:20]
@@ -600,7 +600,9 @@ class CFG:
 TOP = None
 
 
-def _scalar_tracked(t):
+def _scalar_tracked(t, node=None):
+    if node is not None and node.get("p"):
+        return True
     return t in ("err_t", "bool_t", "int", "size_t", "unsigned int", "u32", "unsigned long")
 
 
@@ -688,13 +690,13 @@ def refine(c, pol, env):
     """env after assuming atomic condition c has truth value pol"""
     c = strip(c)
     k = c.get("k")
-    if k == "Ref" and c.get("rk") in ("local", "param") and _scalar_tracked(c.get("t")):
+    if k == "Ref" and c.get("rk") in ("local", "param") and _scalar_tracked(c.get("t"), c):
         return env.set(c["id"], ("nz",) if pol else ("c", 0)) if (pol is False or env.get(c["id"]) is TOP) else env
     if k == "Bin" and c["op"] in ("==", "!="):
         eq = pol if c["op"] == "==" else not pol
         x, y = strip(c["x"]), strip(c["y"])
         for a, b in ((x, y), (y, x)):
-            if a.get("k") == "Ref" and a.get("rk") in ("local", "param") and _scalar_tracked(a.get("t")):
+            if a.get("k") == "Ref" and a.get("rk") in ("local", "param") and _scalar_tracked(a.get("t"), a):
                 bv = eval_abs(b, env)
                 if bv is not TOP and bv[0] == "c":
                     if eq:
@@ -738,7 +740,7 @@ def env_after_eval(e, env):
     for l, rhs, op in assigned_vars(e):
         if l.get("rk") not in ("local", "param"):
             continue
-        if op == "=" and rhs is not None and _scalar_tracked(l.get("t")):
+        if op == "=" and rhs is not None and _scalar_tracked(l.get("t"), l):
             env = env.set(l["id"], eval_abs(rhs, env))
         else:
             env = env.set(l["id"], TOP)
@@ -819,7 +821,7 @@ def run_paths(func, client, max_states=200000, init_env=None):
             env2 = env
             if d.get("init") is not None:
                 env2 = env_after_eval(d["init"], env)
-                if _scalar_tracked(d.get("t")):
+                if _scalar_tracked(d.get("t"), d):
                     env2 = env2.set(d["id"], eval_abs(d["init"], env2))
             for lab, s in node.succ:
                 outs.append((s, cs2, env2))
